@@ -383,6 +383,44 @@ func (tb *TermBank) And(as ...*Term) *Term {
 			return tb.False()
 		}
 	}
+	// unit resolution inside negated conjunctions: a ∧ ¬(a ∧ x) = a ∧ ¬x ; also inside disjunctions
+	// a ∧ (¬a ∨ x) = a ∧ x
+	for i, a := range out {
+		if a.op == "not" && a.args[0].op == "and" {
+			var rest []*Term
+			changed := false
+			for _, y := range a.args[0].args {
+				if seen[y] {
+					changed = true
+					continue
+				}
+				rest = append(rest, y)
+			}
+			if changed {
+				na := tb.Not(tb.And(rest...))
+				no := append(append([]*Term{}, out[:i]...), na)
+				no = append(no, out[i+1:]...)
+				return tb.And(no...)
+			}
+		}
+		if a.op == "or" {
+			var rest []*Term
+			changed := false
+			for _, y := range a.args {
+				if y.op == "not" && seen[y.args[0]] {
+					changed = true
+					continue
+				}
+				rest = append(rest, y)
+			}
+			if changed {
+				na := tb.Or(rest...)
+				no := append(append([]*Term{}, out[:i]...), na)
+				no = append(no, out[i+1:]...)
+				return tb.And(no...)
+			}
+		}
+	}
 	if len(out) == 0 {
 		return tb.True()
 	}
@@ -656,7 +694,19 @@ func (tb *TermBank) Store(arr, idx, val *Term) *Term {
 }
 
 func (tb *TermBank) ConstArray(s Sort, v *Term) *Term {
-	return tb.intern(&Term{op: "const-array", args: []*Term{v}, sort: s, kind: kApp})
+	if v.kind == kLit {
+		return tb.intern(&Term{op: "const-array", args: []*Term{v}, sort: s, kind: kApp})
+	}
+	// cvc5 accepts only values as the default of a constant array: name the array and axiomatise it
+	if v.bound {
+		return tb.intern(&Term{op: "const-array", args: []*Term{v}, sort: s, kind: kApp})
+	}
+	name := fmt.Sprintf("constarr$%d$%s", v.id, sanitize(string(s)))
+	c := tb.Const(name, s)
+	ks, _ := s.ArrayParts()
+	i := tb.BVar("i", ks)
+	tb.AddTermAxiom("constarr:"+name, tb.Forall([]*Term{i}, tb.Eq(tb.App("select", v.sort, c, i), v)), c)
+	return c
 }
 
 func (tb *TermBank) Arith(op string, a, b *Term) *Term {
@@ -683,6 +733,18 @@ func (tb *TermBank) Arith(op string, a, b *Term) *Term {
 	if op == "-" {
 		if v, ok := b.IntVal(); ok && v == 0 {
 			return a
+		}
+		if a == b && a.sort == SInt {
+			return tb.Int(0)
+		}
+	}
+	if op == "+" && a.sort == SInt {
+		// T + (k - T) = k
+		if b.op == "-" && len(b.args) == 2 && b.args[1] == a {
+			return b.args[0]
+		}
+		if a.op == "-" && len(a.args) == 2 && a.args[1] == b {
+			return a.args[0]
 		}
 	}
 	return tb.App(op, a.sort, a, b)
@@ -811,6 +873,14 @@ func (tb *TermBank) rebuild(t *Term, na []*Term) *Term {
 		return tb.Implies(na[0], na[1])
 	case "const-array":
 		return tb.ConstArray(t.sort, na[0])
+	case "+", "-", "*":
+		if len(na) == 2 && t.sort == SInt {
+			return tb.Arith(t.op, na[0], na[1])
+		}
+	case "<", "<=", ">", ">=":
+		if len(na) == 2 && na[0].sort == SInt {
+			return tb.Cmp(t.op, na[0], na[1])
+		}
 	}
 	return tb.App(t.op, t.sort, na...)
 }
